@@ -411,7 +411,25 @@ func (a *NodeActor) handleGossip(ctx vivid.ActorContext, m *GossipMessage) {
 			}
 		}
 	}
-	if a.clusterView.MergeFromWithOptions(m.View, a.getMergeOptions()) {
+	// 反驳：对方视图中关于本节点的条目若属于另一个实例（分代不低于本实例，且分代更高或时间戳不同），说明本节点的上一个实例
+	// 以相同甚至更高的分代留在了别处（本实例入群时，种子尚未收到上一个实例最后一次自增的分代）。版本向量不反映这种差异，
+	// 双方都认为对方不比自己旧而不再同步，旧实例会永久留在对方视图中。此时以更高的分代重新声明本实例并广播
+	refuted := false
+	if claimed := m.View.Members[a.nodeState.ID]; claimed != nil && a.clusterView.Members[a.nodeState.ID] != nil {
+		own := a.nodeState
+		if claimed.Generation > own.Generation || (claimed.Generation == own.Generation && claimed.Timestamp != own.Timestamp) {
+			own.Generation = claimed.Generation + 1
+			if claimed.LogicalClock > own.LogicalClock {
+				own.LogicalClock = claimed.LogicalClock
+			}
+			own.LogicalClock++
+			own.Timestamp = time.Now().UnixNano()
+			a.clusterView.AddMember(own)
+			a.incrementLocalVersion()
+			refuted = true
+		}
+	}
+	if a.clusterView.MergeFromWithOptions(m.View, a.getMergeOptions()) || refuted {
 		a.events.PublishLeaderIfChanged(ctx, a.clusterView, a.nodeState.Address, a.quorumCalc.SatisfiesQuorum(a.clusterView))
 		a.broadcastViewOnce(ctx)
 	}
